@@ -69,6 +69,9 @@ def corner_scenarios(rng, n):
 def run(chk):
     rng = chk.rng
     transducer_suite(chk, 500 if chk.tier == 'quick' else 10000)
+    from harness.pure import resiter
+    from harness.common import Driver as _Driver
+    resiter.tie(chk, _Driver(), 150 if chk.tier == 'quick' else 3000)      # the caller's last wait: the iterator ends
     N = 300 if chk.tier == 'quick' else 6000
     scs = [gen.gen_success_scenario(rng) for _ in range(N)]
     for sc in scs:
